@@ -163,7 +163,8 @@ def gen_cases(cpu, r, tier):
         out.append((G.gen_random(r, mode), "random"))
     # ModRM sweep: opcode 8B (MOV Gv,Ev) and one random ModRM opcode of the shipped specs
     sibs = [0x00, 0x05, 0x25, 0x64, 0x8D, 0xE5, 0xBF, 0x2C] if quick else list(range(256))
-    for a67 in (b"", b"\x67"):
+    sweep_pfx = [b"", b"\x67"] + ([b"\x41", b"\x67\x42"] if mode == 64 else [])     # REX.B / REX.X extend base / index
+    for a67 in sweep_pfx:
         for modrm in range(256):
             for sib in sibs:
                 tail = bytes(r.getrandbits(8) for _ in range(10))
@@ -236,6 +237,12 @@ def main(tier):
             elif m[0] != n or (d is not None and m[1] != d):
                 model_bad.append({"mode": mode, "bytes": b.hex(), "model": m, "references": [n, d], "text": texts})
             # the property
+            if a[0] == "ok" and (a[1] != n or (d is not None and a[2] != d)):
+                # shrink: the references read only the first n bytes; keep what amoco needs to repeat its answer
+                bmin = b[: max(n, a[1])]
+                amin = cpus[mode].decode(bmin)
+                if amin[0] == "ok" and amin[1:3] == a[1:3]:
+                    b = bmin
             if a[0] == "ok":
                 if a[1] != n:
                     report(signature(mode, "len", spec, b),
